@@ -7,7 +7,8 @@ FAMILIES = ("FOL", "TC", "OPT")
 RULE = (
     "generated formulas of depth <= 3 over not/and/or/xor/implies/if-then-else whose leaves are built-in task constraints and "
     "raw comparisons over task variables, plus 0-3 top-level optional constraints with ForceApplyNOptionalConstraints of every "
-    "kind/count and ConstraintFromExpression over generated ASTs, on 1-3 tasks and horizons <= 5. The complete candidate box is "
+    "kind/count - also used as an operand of a connective (applied flags shared by all rules, searched jointly by the reference) - and "
+    "ConstraintFromExpression over generated ASTs, on 1-3 tasks and horizons <= 5. The complete candidate box is "
     "enumerated: every candidate the truth-functional reference judges VALID must be admitted (sat when pinned), every candidate it "
     "judges INVALID must be rejected (unsat) - so a leaked stand-alone operand and a wrong connective are both visible; applied "
     "flags read from steered models: applied => holds, count obeys the force-apply rule. Non-trivial = the formula is neither a "
